@@ -171,8 +171,64 @@ func c04RegisterProbes() []string {
 	return names
 }
 
+// c04Deprecated: the deprecated views of a registry (Registry.ByName / BySource returning *lint.Lint, and
+// lint.Lint.Execute / CheckEffective) must answer exactly like the certificate lints they wrap.
+func c04Deprecated(c *mon.Ctx) {
+	reg := c04PlainReg
+	reg.SetConfiguration(mustConfig(""))
+	cfg := reg.GetConfiguration()
+	var objs []*mon.Obj
+	for i, idx := range W.ByKind[corpus.Cert] {
+		if i%c.Pick(40, 8) == 0 {
+			objs = append(objs, W.Objs[idx])
+		}
+	}
+	perSource := map[lint.LintSource]int{}
+	for _, li := range Inv {
+		if li.Kind != corpus.Cert {
+			if reg.ByName(li.Name) != nil {
+				c.V("deprecated-byname-wrong-kind|"+li.Name, "Registry.ByName answers for "+li.Name+", which is not a certificate lint", li.Name, nil, nil)
+			}
+			continue
+		}
+		perSource[li.Meta.Source]++
+		old := reg.ByName(li.Name)
+		if old == nil {
+			c.V("deprecated-byname-missing|"+li.Name, "Registry.ByName does not find certificate lint "+li.Name, li.Name, nil, nil)
+			continue
+		}
+		if old.Name != li.Name || old.Source != li.Meta.Source || !old.EffectiveDate.Equal(li.Meta.EffectiveDate) || !old.IneffectiveDate.Equal(li.Meta.IneffectiveDate) || old.Description != li.Meta.Description || old.Citation != li.Meta.Citation {
+			c.V("deprecated-metadata|"+li.Name, "the deprecated view of "+li.Name+" carries different metadata", li.Name, nil, nil)
+		}
+		for _, o := range objs {
+			fresh := o.Reparse()
+			if fresh == nil {
+				continue
+			}
+			a := li.CertL.Execute(fresh.Cert, cfg)
+			fresh2 := o.Reparse()
+			b := old.Execute(fresh2.Cert, cfg)
+			c.R.Count("evaluations", 2)
+			c.R.Count("deprecated_wrapper_comparisons", 1)
+			if a == nil || b == nil || a.Status != b.Status || a.Details != b.Details {
+				c.V("deprecated-execute-differs|"+li.Name, fmt.Sprintf("lint.Lint.Execute gives %v, CertificateLint.Execute gives %v for %s on %s", b, a, li.Name, o.Name), li.Name, inputs(o), nil)
+			}
+			if old.CheckEffective(fresh.Cert) != li.CertL.CheckEffective(fresh.Cert) {
+				c.V("deprecated-checkeffective-differs|"+li.Name, "lint.Lint.CheckEffective disagrees with CertificateLint.CheckEffective for "+li.Name, li.Name, inputs(o), nil)
+			}
+		}
+		c.Tick()
+	}
+	for s, n := range perSource {
+		if got := len(reg.BySource(s)); got != n {
+			c.V("deprecated-bysource|"+string(s), fmt.Sprintf("Registry.BySource(%s) returns %d lints, the registry holds %d certificate lints of that source", s, got, n), "", nil, nil)
+		}
+	}
+}
+
 // c04Probes runs the probe product (shard 0 only; single goroutine).
 func c04Probes(c *mon.Ctx) {
+	c04Deprecated(c)
 	objs := map[string]*mon.Obj{}
 	add := func(k string, kind corpus.Kind, b []byte) {
 		if o, _ := mon.ParseObj(kind, k, b); o != nil {
